@@ -6,8 +6,11 @@
    S-expression syntax
      expr  (n <int>) | (v <name>) | (+ e e) | (u e) | (let <name> e) | (set <name> e)     -- (x := e), (x = e) as operands
      stmt  skip | (seq s...) | (let <name> e) | (set <name> e) | (ex e) | (pr e) | (blk s) | (if e s s) | (mac s) | (us s)
-           (let / set / ex are expression statements: SExpr (EBind ..) / SExpr (ESet ..) / SExpr e) *)
+           (let / set / ex are expression statements: SExpr (EBind ..) / SExpr (ESet ..) / SExpr e)
+           | (ifc c s s)     -- conditional on the truthiness condition c, compiled to nested SIf by the extracted
+                                C31_Cond.ifc;  c ::= (e expr) | (not c) | (and c c) | (or c c) | (cu c)  (cu = unhygienic splice) *)
 open C31_Hygiene
+open C31_Cond
 
 type sx = A of string | L of sx list
 
@@ -49,8 +52,18 @@ let rec expr_of (x : sx) : expr =
   | L [ A "set"; A k; e ] -> ESet (nm k, expr_of e)
   | _ -> failwith "expr"
 
+let rec cond_of (x : sx) : cond =
+  match x with
+  | L [ A "e"; e ] -> CE (expr_of e)
+  | L [ A "not"; c ] -> CNot (cond_of c)
+  | L [ A "and"; a; b ] -> CAnd (cond_of a, cond_of b)
+  | L [ A "or"; a; b ] -> COr (cond_of a, cond_of b)
+  | L [ A "cu"; c ] -> CUnhyg (cond_of c)
+  | _ -> failwith "cond"
+
 let rec stmt_of (x : sx) : stmt =
   match x with
+  | L [ A "ifc"; c; t; e ] -> ifc false (cond_of c) (stmt_of t) (stmt_of e)
   | A "skip" -> SSkip
   | L (A "seq" :: r) -> seq_of r
   | L [ A "let"; A k; e ] -> SExpr (EBind (nm k, expr_of e))
